@@ -107,14 +107,15 @@ func (c *Ctx) observeList(l, twin string, obs string) {
 			m.Agg(l, a)
 		}
 	case "sort":
-		if sortable(m.L(l)) {
+		// also outside the domain (first element of another kind: panic; mixed: the model mirrors the code)
+		if m.L(l).Count() > 0 {
 			m.Sort(l)
 		}
 	}
 }
 
 // listMutators: every way the content of a list can change, including through a nested handle.
-var listMutators = []string{"add", "insert0", "insertmid", "replace0", "replacelast", "delete0", "deletelast", "pop", "clear", "reverse",
+var listMutators = []string{"settf-samekind", "add", "insert0", "insertmid", "replace0", "replacelast", "delete0", "deletelast", "pop", "clear", "reverse",
 	"settf-leaf", "settf-beyond", "unsettf", "sort", "inner-add", "inner-set", "settf-deep", "add-bool", "replace-samekind", "none"}
 
 func (c *Ctx) mutateList(l, inner, innerO string, mut string) {
@@ -149,6 +150,12 @@ func (c *Ctx) mutateList(l, inner, innerO string, mut string) {
 		m.Clear(l)
 	case "reverse":
 		m.Reverse(l)
+	case "settf-samekind":
+		if n > 0 {
+			if g := sameKind(m.L(l).Get(0)); g != nil {
+				m.SetTF(l, "#0", g) // an in-place write of the same kind through the tree form
+			}
+		}
 	case "settf-leaf":
 		m.SetTF(l, "#0", gvBool(true))
 	case "settf-beyond":
@@ -208,6 +215,10 @@ func (c *Ctx) omoList(prop string) {
 			if obs == "sort" || obs == "agg" {
 				l = m.NewList(gvInt(3), gvInt(1), gvInt(2), gvInt(-5))
 				twin = m.NewList(gvInt(3), gvInt(1), gvInt(2), gvInt(-5))
+			} else if obs == "allk" && (mut == "pop" || mut == "deletelast" || mut == "replacelast" || mut == "none" || mut == "clear") {
+				// homogeneous but for the last element: removing it flips every All* answer
+				l = m.NewList(gvInt(1), gvInt(2), gvInt(3), gvStr("tail"))
+				twin = m.NewList(gvInt(1))
 			} else {
 				inner = m.NewList(gvInt(1), gvInt(2))
 				innerO = m.NewObject(gvStr("a"), gvInt(1), gvStr("s"), gvStr("\"q\\"))
